@@ -29,9 +29,11 @@ def _one(prop, entry, root):
         shutil.copytree(root / "pdb2pqr", tmp / "pdb2pqr", ignore=shutil.ignore_patterns("__pycache__"))
         path = tmp / "pdb2pqr" / rel
         text = path.read_text(encoding="utf-8")
-        if text.count(old) != 1:
-            return {"name": name, "expect": expect, "result": "corpus-stale", "matches": text.count(old)}
-        text = text.replace(old, new)
+        edits = [(old, new)] if isinstance(old, str) else list(old)  # several edits of one file: old = [(old, new), ...], new = None
+        for o, n in edits:
+            if text.count(o) != 1:
+                return {"name": name, "expect": expect, "result": "corpus-stale", "matches": text.count(o)}
+            text = text.replace(o, n)
         if rel.endswith(".py"):
             try:
                 ast.parse(text)
